@@ -77,6 +77,11 @@ PLANS = {
                 "minimal executor (park on Pending), the others poll; 0-2 producers send before and after; oracles: no targeted stream parked-and-not-ended at exact quiescence, no Pending from a "
                 "poll started after the request returned, request completes (stall verdict), untargeted streams receive every accepted event, all ids reusable afterwards; distinct = (schedule, config)",
                 [ser(15), free(8), ser(6, flavor="checked", shards=8)], [ser(200), free(120), ser(80, flavor="checked")], 2000, 20000),
+    "C17": plan("one evaluation = one execution with 2-3 steady listeners (polling threads), 1-2 producers (random entry points) and a churn thread that creates and drops 1-3 (FREE: 1-12) further listeners, "
+                "on a random Multi kind (6 kinds, MAX_STREAMS >= 4); oracles: steady listeners exactly-once and in order, churned listeners contiguous runs without repeats, pooled kinds accept BUFFER_SIZE "
+                "events again after every queue was drained; every anomaly carries the causal flag 'the affected send overlapped a create/drop-listener operation' (only those match the known finding); "
+                "distinct = (schedule, config); the evidence counts the sends that really overlapped a churn operation",
+                [ser(15), free(8), ser(6, flavor="checked", shards=8)], [ser(200), free(120), ser(80, flavor="checked"), dict(flavor="asan", lane="free", secs=60, crash_is_violation=True)], 2000, 20000),
 }
 
 LEVEL_NOTE = ("trusted base: the harness (conductor/chaos scheduler, recorder, checkers), the placement of the hook sites, x86-64/TSO for the free-running lane, "
@@ -119,4 +124,7 @@ META = {
     "C07": meta("conductor+chaos", "runtime monitoring: controlled scheduling of the cancel/end request against the stream's poll steps; exact-quiescence oracle (parked and not ended), stall verdict, delivery oracle for untargeted streams",
                 "Randomised exploration of the placements of a cancel/end request relative to a stream's poll steps, with parked consumers decided at exact quiescence.",
                 "DESIGN.md section 2, C07"),
+    "C17": meta("conductor+chaos+asan", "runtime monitoring: controlled scheduling of the live-listener list rewrite against the sender's fan-out loop; per-listener exactly-once/order oracle, capacity probe, causal attribution of each anomaly to an overlapping churn operation",
+                "Randomised exploration of listener creation/removal racing the fan-out loop, with every anomaly attributed (or not) to an overlapping churn operation.",
+                "DESIGN.md section 2, C17"),
 }
